@@ -88,11 +88,23 @@ class C03(Prop):
                 lines.append("ssc %s %s" % (h, c))
                 lines.append("ssccat %s %s" % (h, c))
         yield "random-partitions", lines
+        # one-shot iterator continued with `extend` on the next slice (cuts anywhere, also inside characters)
+        lines = []
+        for s in shorts:
+            for cut in range(0, len(s) + 1):
+                lines.append("sbxcat %s %s %d" % (gen.hexs(s[:cut]), gen.hexs(s[cut:]), rng.randrange(0, 3)))
+        for _ in range(n // 3):
+            s = gen.grammar_stream(rng, pieces=rng.choice([2, 3, 5])) + gen.utf8_text(rng, 4)
+            cut = rng.randrange(0, len(s) + 1)
+            lines.append("sbxcat %s %s %d" % (gen.hexs(s[:cut]), gen.hexs(s[cut:]), rng.randrange(0, 3)))
+        yield "extend-next-slice", lines
 
     def nontrivial(self, line, impl):
         parts = line.split(" ")
         if parts[0] in ("sbccat", "ssccat"):
             return parts[2] != "-" and impl != parts[1]
+        if parts[0] == "sbxcat":
+            return impl != ((parts[1] if parts[1] != "-" else "") + (parts[2] if parts[2] != "-" else "") or "-")
         if parts[0] == "wxm":
             return parts[2] != "-" and impl.count("=") > 1
         return False
